@@ -46,6 +46,14 @@ func newRaceNode(ver wallet.Helper) *raceNode {
 	return &raceNode{ab: ab, w: &wl, cancel: cancel}
 }
 
+func le64(v uint64) []byte {
+	b := make([]byte, 8)
+	for i := 0; i < 8; i++ {
+		b[i] = byte(v >> (8 * i))
+	}
+	return b
+}
+
 func init() {
 	sections["race"] = func(c *Ctx) error {
 		c.Rep.Rule = "two real nodes (real constructor: retry ticker and truncation loop running) under a randomized concurrent workload: proposals through the ledger and through the notary service, gossip deliveries in shuffled order (orphans), balance / history / vertex / transaction reads, DAG streaming, synchronous retry and truncation triggers, trusted-node toggles, awaiting-cache and gossip-handler calls; judged by the Go race detector when built with -race; non-trivial = distinct operation kinds that completed"
@@ -271,6 +279,20 @@ func init() {
 				note("a.RemoveTrustedNode")
 			}
 			time.Sleep(200 * time.Microsecond)
+		})
+		// peers announcing themselves while gossip is being processed (peer table writes)
+		spawn(seed+70, func(r *rand.Rand) {
+			wl, _ := wallet.New()
+			url := fmt.Sprintf("127.0.0.1:%d", 20000+r.Intn(1000))
+			now := uint64(time.Now().UnixNano())
+			msg := append(append([]byte(wl.Address()), []byte(url)...), le64(now)...)
+			d, sg := wl.Sign(msg)
+			if _, err := gsp.Server().Announce(ctx, &pb.ConnectionData{PublicAddress: wl.Address(), Url: url, CreatedAt: now, Digest: d[:], Signature: sg}); err == nil {
+				note("a.Announce.ok")
+			} else {
+				note("a.Announce.err")
+			}
+			time.Sleep(2 * time.Millisecond)
 		})
 		time.Sleep(dur)
 		stop.Store(true)
